@@ -949,7 +949,7 @@ def finding_class(case, what=''):
       k = bs[0]['k']
       valid = [[any(r[j] != NAN for r in b['rows']) for j in range(k)] for b in bs]
       if all(not any(v) for v in valid):
-        return 'F24'       # 2-D data without a single non-NaN entry (or no row): accumulator stays scalar
+        return 'F26'       # 2-D data without a single non-NaN entry (or no row): accumulator stays scalar
       bs = [b for b in bs if b['rows']]
       valid = [[any(r[j] != NAN for r in b['rows']) for j in range(k)] for b in bs]
       for j in range(k):
@@ -959,7 +959,7 @@ def finding_class(case, what=''):
   if m == 'mean':
     bs = [b for b in _mv_batches(case) if b['dim'] == 2]
     if bs and all(all(x == NAN for r in b['rows'] for x in r) for b in bs):
-      return 'F24'
+      return 'F26'
   if m == 'fss' and any(op['op'] in ('merge', 'merge_states') for op in prog):
     return 'F3'
   if m in ('sampler', 'valueacc', 'tuplemeanstate'):
@@ -969,12 +969,12 @@ def finding_class(case, what=''):
         fed.add(op['acc'])
       elif op['op'] == 'merge':
         if op['other'] not in fed:
-          return 'F23'     # merging in a never-updated accumulator
+          return 'F25'     # merging in a never-updated accumulator
         fed.add(op['acc'])
       elif op['op'] == 'merge_states':
         for i in op['accs'][1:]:
           if i not in fed:
-            return 'F23'
+            return 'F25'
         fed.add(op['accs'][0])
   if m == 'minmax':
     vals = [frac(x) for op in prog if op['op'] == 'add' for x in op['batch']]
